@@ -1,6 +1,9 @@
 """C10 part a (builder b-wire1): primitive and records layers — malformed-input stream run on the real decoders in a
 memory-capped child process; outcome class per input compared with the model's verdict; the monitor is the property
-itself (no panic, no hang, no allocation out of proportion)."""
+itself (no panic, no hang, no allocation out of proportion).  The bounds / negativity / limit decisions of the
+realDecoder getters are in addition regenerated from the source on every run (decgen group C10, coq/Gen/DecC10.v,
+tied to the hand model by coq/Wire/TieProofs.v)."""
+from decgen_tie import run_decgen
 
 
 def run_part(c):
@@ -17,6 +20,7 @@ def run_part(c):
             "TotalAlloc delta > 64 MiB = allocation, recovered panic, 10 s timeout = hang)")
     c.trust("Coq 8.16.1 kernel + vm_compute (evaluation of the model on the harness cases)")
     c.assume("64-bit platform (Go int = int64); slices handed to realDecoder have capacity = length")
+    run_decgen(c, "C10")   # regenerated getter decisions (go/decgen) vs the proved golden coq/Gen/DecC10.v
     b = c.go_build("c10prim")
     if not b:
         return
